@@ -42,8 +42,8 @@ ASSUMPTIONS = [
     "runs hit by the recorded Anderson finding are excluded by using aa_depth = 0 here (C04 owns that finding)",
 ]
 FLOORS = {
-    "quick": {"emd_series_equals_per_slice": 60, "identity_zero": 90, "swap_symmetric": 180, "scaling_linear": 250, "first_moment_bound": 650, "true_minimum_bound": 140, "thin_grid_unique_flux": 150, "frontend_equals_backend": 400, "emd": 300, "emd_object_reused_across_cases": 20, "options_dictionary_reused": 50},
-    "thorough": {"emd_series_equals_per_slice": 600, "identity_zero": 450, "swap_symmetric": 1300, "scaling_linear": 1800, "first_moment_bound": 6000, "true_minimum_bound": 1100, "thin_grid_unique_flux": 2300, "frontend_equals_backend": 3000, "emd": 2000, "emd_object_reused_across_cases": 200, "options_dictionary_reused": 500},
+    "quick": {"one_object_both_directions": 40, "emd_series_equals_per_slice": 60, "identity_zero": 90, "swap_symmetric": 180, "scaling_linear": 250, "first_moment_bound": 650, "true_minimum_bound": 140, "thin_grid_unique_flux": 150, "frontend_equals_backend": 400, "emd": 300, "emd_object_reused_across_cases": 20, "options_dictionary_reused": 50},
+    "thorough": {"one_object_both_directions": 300, "emd_series_equals_per_slice": 600, "identity_zero": 450, "swap_symmetric": 1300, "scaling_linear": 1800, "first_moment_bound": 6000, "true_minimum_bound": 1100, "thin_grid_unique_flux": 2300, "frontend_equals_backend": 3000, "emd": 2000, "emd_object_reused_across_cases": 200, "options_dictionary_reused": 500},
 }
 SHARD_TIMEOUT = {"quick": 1500, "thorough": 6000}
 LAW_GRIDS = [(9,), (30,), (4, 5), (1, 12), (8, 8), (12, 10), (3, 3, 3), (4, 5, 6), (2, 1, 9), (17, 16)]
@@ -302,6 +302,18 @@ def run_shard(spec, R):
         ok, sw = R.guarded("solve", lambda: solve(method, (m2, m1), l1, mob))
         if ok and not sw[1].get("vf_degenerate"):
             R.check(abs(sw[0] - d0) <= 1e-12 * sc, "swap_symmetric", {**desc, "d12": d0, "d21": sw[0]}, group=grp)
+        # ... and with one solver object serving both directions and the first direction once more (as in a distance
+        # matrix): the three values are those of fresh objects
+        if c["id"] % 2 == 0 and ok and not sw[1].get("vf_degenerate"):
+            def one_object():
+                w_ = wass.solver_class(darsia, method)(darsia.generate_grid(m1), None, wass.make_options(darsia, method, l1, mob, "pressure", "direct", 0, 8, None))
+                return float(w_(m1, m2)[0]), float(w_(m2, m1)[0]), float(w_(m1, m2)[0])
+
+            ok1, tri = R.guarded("solve", one_object)
+            if ok1:
+                R.check(abs(tri[0] - d0) <= 1e-12 * sc and abs(tri[2] - d0) <= 1e-12 * sc and abs(tri[1] - sw[0]) <= 1e-12 * sc, "swap_symmetric",
+                        {**desc, "what": "one solver object serves (a,b), (b,a), (a,b)", "values": list(tri), "fresh_objects": [d0, sw[0]]}, group=grp + "/one_object")
+                R.count("one_object_both_directions")
         # scaling of both masses
         cc = c["c"]
         s1, s2 = wass.images(darsia, cc * a, cc * b, h)
